@@ -26,3 +26,11 @@ package internal
 //@   at call 2 val.Index: ghost examined++
 //@   loop 1:
 //@     invariant[all_earlier_chunks_examined] @C14,C04 examined == i && i >= 0
+
+//@ func concatMaps
+//@   props C14 C04
+//@   skip safe pre
+//@   note reflect.Value operations are opaque; what is checked is that the map the result is accumulated into is the one allocated by this call (no input chunk is written)
+//@   ghost made reflect.Value
+//@   after call 2 reflect.MakeMap: ghost made = result
+//@   at call ret.SetMapIndex: assert[accumulates_into_its_own_map] @C14,C04 ret == made
